@@ -41,6 +41,9 @@ def case_key(h, bad):
     step = steps[at - 1] if at else None
     ek, gk = bad["exp"]["k"], bad["got"]["k"]
     rel = (bad.get("rel") or {}).get("rel", "")
+    if step is not None and step["op"] == "calliter" and step["a"] == "arg" and gk == "data" \
+            and bad["got"].get("head", "").startswith('"OTHER FILE'):
+        return "C19:lines-iterator:argument-used-as-the-file"
     if step is not None and step["pre"]["closed"] and step["op"] not in ("open", "peek"):
         op = "read" if step["op"] in ("read", "readline", "readall", "readnum", "readm") else step["op"]
         dc = _dirclass(step["pre"]["mode"])
@@ -58,6 +61,13 @@ def case_key(h, bad):
     if gk == "crash":
         return "C19:read:huge-count:process-crash"
     if step is not None:
+        if (step["op"] in ("readline", "readall", "readnum") and step["a"] == "long") or \
+                (step["op"] == "readm" and any(f[0] != "c" and f[1] == 1 for f in step.get("fs", []))):
+            return "C19:read:long-format-spelling"              # "*line" "*all" "*number": only the first letter counts
+        if step["op"] == "setvbuf" and ek == "ok" and gk == "fail" and "only reading" in bad["got"].get("msg", ""):
+            return "C19:setvbuf:read-only-handle-refused"
+        if step["op"] == "calliter" and step["a"] == "arg":
+            return "C19:lines-iterator:argument-used-as-the-file"
         if step["op"] == "read" and step["a"] in ("-1", "-5") and gk == "error":
             return "C19:read:negative-count:raises-instead-of-reading-the-rest"
         if step["op"] == "open" and step["a"] in ("r+b", "w+b", "a+b") and ek in ("ok", "fail") and gk == "error":
@@ -209,13 +219,16 @@ def render_lua(h, upto):
     steps = h["steps"][:upto] if upto else h["steps"]
     for s in steps:
         op, a, n = s["op"], s["a"], s["n"]
-        fmts = ", ".join(str(f[1]) if f[0] == "c" else '"*%s"' % f[0] for f in s.get("fs", []))
+        long = {"l": "line", "a": "all", "n": "number"}
+        fmts = ", ".join(str(f[1]) if f[0] == "c" else '"*%s"' % (long[f[0]] if f[1] == 1 else f[0]) for f in s.get("fs", []))
         c = {"readm": "f:read(%s)  -- io.read(..) when f is the default input" % fmts,
              "open": "f = io.tmpfile()" if a == "tmp" else ("io.output(path) f = io.output()" if a == "out" else ("io.input(path) f = io.input()" if a == "in" else 'f = io.open(path, "%s")' % a)), "peek": 'io.open(path, "r"):read("*a")',
-             "read": "f:read(%s)" % (a or n), "readline": 'f:read("*l")', "readall": 'f:read("*a")', "readnum": 'f:read("*n")',
+             "read": "f:read(%s)" % (a or n), "readline": 'f:read("*line")' if a == "long" else 'f:read("*l")',
+             "readall": 'f:read("*all")' if a == "long" else 'f:read("*a")',
+             "readnum": 'f:read("*number")' if a == "long" else 'f:read("*n")',
              "lines": "it = f:lines() -- called %d times" % n, "write": "f:write(payload(%d, %d))" % (s["tag"], n),
              "seek": 'f:seek("%s", %d)' % (a, n), "seek0": "f:seek()", "seek1": 'f:seek("%s")' % a,
-             "getiter": "it = f:lines()  -- kept", "calliter": "it()", "flush": "f:flush()",
+             "getiter": "it = f:lines()  -- kept", "calliter": "it(g)  -- g: an open handle on another file" if a == "arg" else "it()", "flush": "f:flush()",
              "setvbuf": ('f:setvbuf("%s", %d)' % (a, n)) if n else 'f:setvbuf("%s")' % a,
              "close": "f:close()"}[op]
         out.append("%s  --> %s" % (c, json.dumps(s["exp"])[:120]))
@@ -240,6 +253,7 @@ COUNTS = [0, 1, 2, 3, 10, 36, 37, 100, 4000, 4095, 4096, 4097, 5000, 8192, 8193]
 OFFS = [0, 0, 0, 1, -1, 2, -2, 37, -37, 100, -100, 4095, -4095, 4096, -4096, 4097, 5000, -5000, 9000]
 MODES = ["r", "rb", "w", "wb", "a", "ab", "r+", "rb+", "w+", "wb+", "a+", "ab+", "r+b", "w+b", "a+b"]
 UPDATE = ["r+", "w+", "a+", "rb+", "r+", "w+", "tmp", "wb+", "ab+", "r+b", "w+b", "a+b"]
+LONGS = ["", "", "long"]        # "*l" / "*line" ...
 RESTCOUNTS = ["-1", "-5", "2^31", "2^40", "1e12"]
 HUGE = ("2^31", "2^40", "1e12")
 VSIZES = [0, 0, 1, 2, 16, 100, 4096]
@@ -259,16 +273,16 @@ def rand_ops(rng, n):
         elif r < 0.16:
             ops.append(op("read", "", cnt))
         elif r < 0.18:
-            ops.append(op("readnum"))
+            ops.append(op("readnum", rng.choice(LONGS)))
         elif r < 0.20:
             k = rng.choice([2, 2, 3])      # f:read(fmt1, fmt2[, fmt3])
             o = op("readm")
-            o["fs"] = [rng.choice([["c", rng.choice([0, 1, 2, 37, 4096, cnt])], ["l", 0], ["n", 0], ["a", 0]]) for _ in range(k)]
+            o["fs"] = [rng.choice([["c", rng.choice([0, 1, 2, 37, 4096, cnt])], ["l", rng.choice([0, 0, 1])], ["n", rng.choice([0, 0, 1])], ["a", rng.choice([0, 0, 1])]]) for _ in range(k)]
             ops.append(o)
         elif r < 0.24:
-            ops.append(op("readline"))
+            ops.append(op("readline", rng.choice(LONGS)))
         elif r < 0.28:
-            ops.append(op("readall"))
+            ops.append(op("readall", rng.choice(LONGS)))
         elif r < 0.30:
             ops.append(op("getiter"))
         elif r < 0.34:
@@ -286,7 +300,7 @@ def rand_ops(rng, n):
         elif r < 0.88:
             ops.append(op("setvbuf", rng.choice(["no", "full", "full", "line"]), rng.choice(VSIZES)))
         elif r < 0.93:
-            ops.append(op("peek") if rng.random() < 0.5 else op("calliter"))
+            ops.append(op("peek") if rng.random() < 0.5 else op("calliter", rng.choice(["", "", "arg"])))
         elif r < 0.97:
             ops.append(op("close"))
         else:
